@@ -842,6 +842,17 @@ func main() {
 	for i := range hs {
 		hs[i].id = fmt.Sprintf("%s-%d", *mode, i+1)
 	}
+	if useFault {
+		// the binary under test must carry the add-only hook cmd/atlas/verif_sqlfault.go
+		tmp, _ := os.MkdirTemp(scratch(), "vrsp")
+		os.MkdirAll(filepath.Join(tmp, "m"), 0o755)
+		pr := clirun.Run(tmp, nil, "migrate", "apply", "--dir", "file://"+filepath.Join(tmp, "m"), "--url", "sqlitefault://"+filepath.Join(tmp, "p.db"))
+		os.RemoveAll(tmp)
+		if strings.Contains(pr.Stderr+pr.Stdout, "unknown driver") {
+			w.Violation("fault-0", "hook-missing", "the CLI under test does not know the sqlitefault:// scheme: add notes/hooks/cmd_atlas_verif_sqlfault.go as cmd/atlas/verif_sqlfault.go to the atlas tree (add-only, //go:build verif)")
+			return
+		}
+	}
 	results := make([]result, len(hs))
 	jobs := make([]func(), len(hs))
 	for i := range hs {
